@@ -432,5 +432,6 @@ def rule_leaf(repo: Repo) -> RuleResult:
 
 def rules(repo: Repo, tier: str) -> List[RuleResult]:
     from . import c13
-    return [c13.rule_round(repo, "C12.round", ["NumericalExpressionTree._convert_to_pddl", "NumericalExpressionTree._convert_to_mathematical"]), rule_arith(repo), rule_compare(repo), rule_assign(repo), rule_order(repo), rule_env(repo), rule_tables(repo),
+    return [c13.rule_round(repo, "C12.round", ["NumericalExpressionTree._convert_to_pddl", "NumericalExpressionTree._convert_to_mathematical"]),
+            c13.rule_digits(repo, "C12.digits", (NE,)), rule_arith(repo), rule_compare(repo), rule_assign(repo), rule_order(repo), rule_env(repo), rule_tables(repo),
             rule_leaf(repo)]
